@@ -172,7 +172,11 @@ NUMS = {
     "bigint": [0, 1, -1, 3, 255, 256, 2 ** 31, -2 ** 31 - 1, 2 ** 32, 2 ** 40, 2 ** 63, 2 ** 64 + 1, N.I128_MAX, N.I128_MIN],
     "byte": [0, 1, 2, 65, 90, 127, 128, 200, 255],
     "float": [0.0, -0.0, 0.5, -0.5, 1.5, 2.5, -2.5, 3.49999, 255.9, 256.0, -0.9, 2147483647.5, 2147483648.0, -2147483648.9, 1e19, 1e30,
-              -1e30, 1e300, 1e-300, 2.0 ** 53, 4.0, 81.0],
+              -1e30, 1e300, 1e-300, 2.0 ** 53, 4.0, 81.0,
+              # the doubles AT and next to every conversion boundary (the bounds of int / byte / bigint as doubles; i128::MAX itself is
+              # not a double: 2^127 is the first value out of range, 2^127 - 2^74 the last one in range)
+              2147483647.0, -2147483648.0, -2147483649.0, 255.0, -1.0, 2.0 ** 63, 2.0 ** 64, 2.0 ** 127, 2.0 ** 127 - 2.0 ** 74,
+              -(2.0 ** 127), -(2.0 ** 127) - 2.0 ** 75, 2.0 ** 128],
 }
 EXPS = [-1, 0, 1, 2, 31, 40, 127]
 FEXPS = [0.5, 2.0, -1.0, 0.0]
